@@ -8,6 +8,7 @@ pub mod report;
 pub mod sniff;
 pub mod templates;
 pub mod util;
+pub mod warm;
 
 pub use report::{Reporter, Tier};
 pub use util::*;
